@@ -80,3 +80,221 @@ theorem iterSkip (k : Nat) (ds : List Nat) (hk : k < ds.length) (j : Nat) :
     exact incrSkip_ins k ds _ hk (iter_incr_length _ _)
 
 end Qeep
+
+namespace Qeep
+variable {α : Type}
+
+theorem flatten_singletons {β γ : Type} (l : List β) (g : β → γ) : (l.map (fun i => [g i])).flatten = l.map g := by
+  induction l with
+  | nil => rfl
+  | cons x xs ih => simp [ih]
+
+/-- a unit window `[s, s+1)` in every dimension copies exactly the element at that index -/
+theorem slice_unit : ∀ {ds st : List Nat}, Valid ds st → ∀ (data : List α), data.length = prod ds →
+    ∃ x, sliceData (unitWin st) ds data = some [x] ∧ (⟨ds, data⟩ : Tensor α).at? st = some x
+  | _, _, .nil, data, hl => by
+    simp only [prod] at hl
+    match data, hl with
+    | [x], _ => exact ⟨x, rfl, by simp [Tensor.at?, offset]⟩
+  | _, _, .cons (d := d) (s := s) (ds := ds) (ss := st) hs hv, data, hl => by
+    simp only [prod] at hl
+    obtain ⟨x, h1, h2⟩ := slice_unit hv (chunk data (prod ds) s) (chunk_length data (prod ds) s d hl hs)
+    refine ⟨x, ?_, ?_⟩
+    · simp only [unitWin, List.map_cons, sliceData]
+      have hc : s + 1 ≤ d ∧ data.length = d * prod ds := ⟨by omega, hl⟩
+      rw [if_pos hc]
+      have : s + 1 - s = 1 := by omega
+      rw [this]
+      simp only [List.range_one, List.map_cons, List.map_nil, Nat.zero_add]
+      have h1' : sliceData (List.map (fun s => (s, s + 1)) st) ds (chunk data (prod ds) s) = some [x] := h1
+      rw [h1']
+      simp [allSome]
+    · rw [at?_cons d ds data s st hs hv.length_eq]; exact h2
+
+/-- **the window of the `…Along` generator copies one fibre**: all elements whose index agrees with `st` outside
+    position `dim`, in order of their coordinate along `dim` -/
+theorem slice_window : ∀ (dim : Nat) {dims st : List Nat}, Valid dims st → dim < dims.length →
+    ∀ (data : List α), data.length = prod dims →
+    ∃ fib, sliceData (windowOf dim dims st) dims data = some fib ∧ fib.length = dims.getD dim 0 ∧
+      ∀ i, i < dims.getD dim 0 → fib[i]? = (⟨dims, data⟩ : Tensor α).at? (st.set dim i) ∧ (fib[i]?).isSome
+  | 0, _, _, .cons (d := d) (s := s) (ds := ds) (ss := st) hs hv, _, data, hl => by
+    simp only [prod] at hl
+    have hrow : ∀ i, i < d → ∃ x, sliceData (unitWin st) ds (chunk data (prod ds) i) = some [x] ∧
+        (⟨d :: ds, data⟩ : Tensor α).at? (i :: st) = some x := by
+      intro i hi
+      obtain ⟨x, h1, h2⟩ := slice_unit hv (chunk data (prod ds) i) (chunk_length data (prod ds) i d hl hi)
+      exact ⟨x, h1, by rw [at?_cons d ds data i st hi hv.length_eq]; exact h2⟩
+    -- a default element to name the fibre entries
+    obtain ⟨dflt, _, _⟩ := hrow s hs
+    let g : Nat → α := fun i => ((⟨d :: ds, data⟩ : Tensor α).at? (i :: st)).getD dflt
+    have hg : ∀ i, i < d → sliceData (unitWin st) ds (chunk data (prod ds) (i + 0)) = some [g i] := by
+      intro i hi
+      obtain ⟨x, h1, h2⟩ := hrow i hi
+      simp only [Nat.add_zero, g, h2, Option.getD_some]; exact h1
+    refine ⟨(List.range d).map g, ?_, by simp, ?_⟩
+    · simp only [windowOf, sliceData]
+      rw [if_pos ⟨Nat.le_refl d, hl⟩, Nat.sub_zero, allSome_range d _ (fun i => [g i]) hg]
+      simp [flatten_singletons]
+    · intro i hi
+      simp only [List.getD_cons_zero] at hi
+      obtain ⟨x, _, h2⟩ := hrow i hi
+      simp [List.getElem?_map, List.getElem?_range hi, g, h2]
+  | dim + 1, _, _, .cons (d := d) (s := s) (ds := ds) (ss := st) hs hv, hdim, data, hl => by
+    simp only [prod] at hl
+    have hdim' : dim < ds.length := by simpa using hdim
+    obtain ⟨fib, h1, h2, h3⟩ := slice_window dim hv hdim' (chunk data (prod ds) s) (chunk_length data (prod ds) s d hl hs)
+    refine ⟨fib, ?_, by simpa using h2, ?_⟩
+    · simp only [windowOf, sliceData]
+      rw [if_pos ⟨by omega, hl⟩]
+      have : s + 1 - s = 1 := by omega
+      rw [this]
+      simp only [List.range_one, List.map_cons, List.map_nil, Nat.zero_add, h1]
+      simp [allSome]
+    · intro i hi
+      simp only [List.getD_cons_succ] at hi
+      obtain ⟨e1, e2⟩ := h3 i hi
+      refine ⟨?_, e2⟩
+      rw [e1]
+      simp only [List.set_cons_succ]
+      have hlen : (st.set dim i).length = ds.length := by simp [hv.length_eq]
+      rw [at?_cons d ds data s (st.set dim i) hs hlen]
+
+end Qeep
+
+namespace Qeep
+variable {α : Type}
+
+theorem completeIndex_window : ∀ (dim : Nat) {dims st : List Nat}, Valid dims st → (∀ d ∈ dims, 0 < d) → dim < dims.length →
+    completeIndex (windowOf dim dims st) dims = windowOf dim dims st
+  | 0, _, _, .cons (d := d) (s := s) (ds := ds) (ss := st) hs hv, hpos, _ => by
+    have hd : 0 < d := hpos d (by simp)
+    simp only [windowOf, completeIndex]
+    have hsame : (if True ∧ d = 0 then ((0 : Nat), d) else (0, d)) = (0, d) := by split <;> rfl
+    rw [hsame]
+    congr 1
+    -- unit windows are complete
+    have hu : ∀ {ds st : List Nat}, Valid ds st → completeIndex (unitWin st) ds = unitWin st := by
+      intro ds st hv
+      induction hv with
+      | nil => simp [unitWin, completeIndex]
+      | cons h _ ih =>
+        simp only [unitWin, List.map_cons, completeIndex] at ih ⊢
+        rw [if_neg (by omega), ih]
+    exact hu hv
+  | dim + 1, _, _, .cons (d := d) (s := s) (ds := ds) (ss := st) hs hv, hpos, hdim => by
+    simp only [windowOf, completeIndex]
+    rw [if_neg (by omega)]
+    congr 1
+    exact completeIndex_window dim hv (fun x hx => hpos x (by simp [hx])) (by simpa using hdim)
+
+theorem valid_insLE : ∀ (k : Nat) {ds u : List Nat}, k < ds.length → Valid (delLE k ds) u → (∀ d ∈ ds, 0 < d) →
+    Valid ds (insLE k 0 u)
+  | _, [], _, hk, _, _ => by simp at hk
+  | 0, d :: ds, u, _, hv, hpos => by
+    simp only [delLE] at hv
+    simp only [insLE]
+    exact .cons (hpos d (by simp)) hv
+  | k + 1, d :: ds, [], _, hv, _ => by simp only [delLE] at hv; cases hv
+  | k + 1, d :: ds, x :: u, hk, hv, hpos => by
+    simp only [delLE] at hv
+    cases hv with
+    | cons hx hv' =>
+      simp only [insLE]
+      exact .cons hx (valid_insLE k (by simpa using hk) hv' (fun y hy => hpos y (by simp [hy])))
+
+theorem valid_reverse : ∀ {ds st : List Nat}, Valid ds st → Valid ds.reverse st.reverse
+  | _, _, .nil => .nil
+  | _, _, .cons h hv => by
+    simp only [List.reverse_cons]
+    exact valid_append (valid_reverse hv) h
+
+theorem delLE_append_length : ∀ (p : List Nat) (x : Nat) (q : List Nat), delLE p.length (p ++ x :: q) = p ++ q
+  | [], _, _ => rfl
+  | a :: p, x, q => by simp [delLE, delLE_append_length p x q]
+
+/-- deleting BE position `dim` = deleting LE position `n-1-dim` of the reversed list -/
+theorem squeeze_rev (dim : Nat) (dims : List Nat) (h : dim < dims.length) :
+    (squeezeDims dim dims).reverse = delLE (dims.length - 1 - dim) dims.reverse := by
+  unfold squeezeDims
+  have hsplit : dims = dims.take dim ++ dims[dim] :: dims.drop (dim + 1) := by
+    rw [← List.drop_eq_getElem_cons h, List.take_append_drop]
+  have hl : (dims.drop (dim + 1)).reverse.length = dims.length - 1 - dim := by simp; omega
+  have hrev : dims.reverse = (dims.drop (dim + 1)).reverse ++ dims[dim] :: (dims.take dim).reverse := by
+    conv => lhs; rw [hsplit]
+    simp only [List.reverse_append, List.reverse_cons, List.append_assoc, List.singleton_append]
+  rw [hrev, ← hl, delLE_append_length, List.reverse_append]
+
+/-- **Specification of the `…Along` generator run** (`reduceDimUsingFunc`): for every rank ≥ 1, every `dim`, every
+    reducer `trf`: the run succeeds, the result has the operand's dims with `dim` removed, and its `j`-th element
+    (row-major) is `trf` of the `j`-th fibre — the window tensor whose data are the source elements at the index
+    `S j` with coordinate `dim` running over `0 … dims[dim]-1`, where `S j` is the `j`-th output index with a 0
+    inserted at `dim`. -/
+theorem reduceDim_spec (t : Tensor α) (hwf : t.WF) (dim : Nat) (hdim : dim < t.dims.length) (trf : Tensor α → α) :
+    let k := t.dims.length - 1 - dim
+    let S := fun j => (insLE k 0 (iterN (incr (delLE k t.dims.reverse)) j (zerosLike (delLE k t.dims.reverse)))).reverse
+    ∃ data', t.reduceDimRaw dim trf = some ⟨squeezeDims dim t.dims, data'⟩ ∧
+      data'.length = prod (squeezeDims dim t.dims) ∧
+      ∀ j, j < prod (squeezeDims dim t.dims) →
+        ∃ fib : List α, fib.length = t.dims.getD dim 0 ∧
+          (∀ i, i < t.dims.getD dim 0 → fib[i]? = t.at? ((S j).set dim i) ∧ (fib[i]?).isSome) ∧
+          data'[j]? = some (trf ⟨sliceDims (windowOf dim t.dims (S j)), fib⟩) := by
+  intro k S
+  have hk : k < t.dims.reverse.length := by simp; omega
+  have hposR : ∀ d ∈ t.dims.reverse, 0 < d := fun d hd => hwf.2 d (by simpa using hd)
+  have hposD : ∀ d ∈ delLE k t.dims.reverse, 0 < d := by
+    rw [← squeeze_rev dim t.dims hdim]
+    intro d hd
+    have : d ∈ squeezeDims dim t.dims := by simpa using hd
+    unfold squeezeDims at this
+    rcases List.mem_append.mp this with h | h
+    · exact hwf.2 d (List.mem_of_mem_take h)
+    · exact hwf.2 d (List.mem_of_mem_drop h)
+  -- validity of the j-th window index
+  have hvalid : ∀ j, Valid t.dims (S j) := by
+    intro j
+    have hv := valid_insLE k hk (valid_iter hposD j) hposR
+    have := valid_reverse hv
+    simpa [S] using this
+  -- the fibre of step j
+  have hstep : ∀ j, ∃ fib : List α, t.sliceRaw (windowOf dim t.dims (S j)) = some ⟨sliceDims (windowOf dim t.dims (S j)), fib⟩ ∧
+      fib.length = t.dims.getD dim 0 ∧
+      ∀ i, i < t.dims.getD dim 0 → fib[i]? = t.at? ((S j).set dim i) ∧ (fib[i]?).isSome := by
+    intro j
+    obtain ⟨fib, h1, h2, h3⟩ := slice_window dim (hvalid j) hdim t.data hwf.1
+    refine ⟨fib, ?_, h2, h3⟩
+    unfold Tensor.sliceRaw
+    simp only [completeIndex_window dim (hvalid j) hwf.2 hdim, h1, Option.map_some]
+  -- choose the fibres
+  have hch : ∀ j, ∃ v : α, (t.sliceRaw (windowOf dim t.dims (S j))).map trf = some v ∧
+      ∃ fib : List α, fib.length = t.dims.getD dim 0 ∧
+        (∀ i, i < t.dims.getD dim 0 → fib[i]? = t.at? ((S j).set dim i) ∧ (fib[i]?).isSome) ∧
+        v = trf ⟨sliceDims (windowOf dim t.dims (S j)), fib⟩ := by
+    intro j
+    obtain ⟨fib, h1, h2, h3⟩ := hstep j
+    exact ⟨_, by rw [h1]; rfl, fib, h2, h3, rfl⟩
+  let g : Nat → α := fun j => Classical.choose (hch j)
+  have hg : ∀ j, (t.sliceRaw (windowOf dim t.dims (S j))).map trf = some (g j) ∧
+      ∃ fib : List α, fib.length = t.dims.getD dim 0 ∧
+        (∀ i, i < t.dims.getD dim 0 → fib[i]? = t.at? ((S j).set dim i) ∧ (fib[i]?).isSome) ∧
+        g j = trf ⟨sliceDims (windowOf dim t.dims (S j)), fib⟩ := fun j => Classical.choose_spec (hch j)
+  -- the generator state at step j is `S j` reversed back
+  have hstate : ∀ j, (iterN (incrSkip k t.dims.reverse) j (zerosLike t.dims)).reverse = S j := by
+    intro j
+    have := iterSkip k t.dims.reverse hk j
+    rw [zerosLike_reverse] at this
+    rw [this]
+  unfold Tensor.reduceDimRaw
+  simp only []
+  rw [iterGen_eq]
+  have hall : ∀ j, j < prod (squeezeDims dim t.dims) →
+      (t.sliceRaw (windowOf dim t.dims (iterN (incrSkip (t.dims.length - 1 - dim) t.dims.reverse) j (zerosLike t.dims)).reverse)).map trf
+        = some (g j) := by
+    intro j _
+    rw [hstate j]; exact (hg j).1
+  rw [allSome_range _ _ g hall]
+  refine ⟨_, rfl, by simp, ?_⟩
+  intro j hj
+  obtain ⟨_, fib, h2, h3, h4⟩ := hg j
+  exact ⟨fib, h2, h3, by simp [List.getElem?_map, List.getElem?_range hj, h4]⟩
+
+end Qeep
